@@ -56,7 +56,10 @@ structure TableDef where
   cols : List Col
   cons : List ConsDef
   comment : Option String
-  extra : String                 -- prefixes, info, dialect kwargs (opaque)
+  /-- the table-level options, opaque: canonical encoding of `(table.kwargs, prefixes, info)` with every
+  value kept as given, falsy ones included (`sqlite_with_rowid=False`, `mysql_engine=''`, `info={}`).
+  `CreateTableOp.from_table` / `DropTableOp.from_table` / `to_table` pass them through unchanged. -/
+  extra : String
   deriving DecidableEq, Repr, Inhabited
 
 /-- `False` (not given) / `None` / a value: `server_default`, `modify_comment` -/
